@@ -118,6 +118,17 @@ theorem derive_seed_fn :
     exact eat_lt _ _ _ (eat_lt _ _ _ (by decide))
   · intro _ _ _ _ h1 h2; rw [h1, h2]
 
+/-- Reproducibility of the stream: in any run after `reset(base)` — whatever draws on other
+handles are interleaved, in whatever order — the values drawn on handle `name` are exactly those a
+standalone generator seeded with `derive_seed(base, name)` produces for the same requests.  So they
+depend on `(base seed, handle name, this handle's own requests)` only. -/
+theorem stream_reproducible {γ ρ α : Type} (o p : Nat) (mk : Nat → γ) (draw : ρ → γ → γ × α)
+    (base : Nat) (name : List Nat) (ops : List (List Nat × ρ)) :
+    ((Table.run o p mk draw (Table.reset base) ops).filter (fun x => x.1 == name)).map (·.2) =
+      drawAll draw (mk (deriveSeed o p base name)) ((ops.filter (fun x => x.1 == name)).map (·.2)) := by
+  rw [run_stream]
+  rfl
+
 /-- The per-instance component seed uses the same scheme over `base ++ test_name ++ instance`;
 being a hash of the *concatenation*, it does not separate the two names. -/
 theorem instance_seed_fn :
